@@ -256,6 +256,9 @@ declare("ZU7", ["A ZCb", "B ZCb", "K int"], "unsupported")
 declare("ZU8", ["S1 ZSet", "P *ZSet", "L []ZSet", "K string"], "unsupported")
 declare("ZU9", ["C ZCh `json:\"c\"`", "D []ZCh", "M map[string]ZCh", "E ZCh"], "unsupported")
 declare("ZU10", ["X ZC128", "Y *ZC128", "In struct{ Z ZC128 }", "K int"], "unsupported")
+# unsupported fields that carry a jsonschema description tag (skipped with IgnoreInvalidTypes before the tag is used)
+declare("ZU11", ["F func() `jsonschema:\"a callback\"`", "K int `jsonschema:\"kept\"`"], "unsupported")
+declare("ZU12", ["C chan int `json:\"c\" jsonschema:\"a channel\"`", "M map[int]string `jsonschema:\"keyed by int\"`", "L []ZCb `json:\"l,omitempty\" jsonschema:\"callbacks\"`", "S string"], "unsupported")
 # 8. more plain: slog.Level, deep nesting, arrays, every scalar
 declare("ZAll", ["F%d %s" % (i, s) for i, s in enumerate(SCALARS)], "plain")
 declare("ZAllPtr", ["F%d *%s `json:\"f%d,omitempty\"`" % (i, s, i) for i, s in enumerate(SCALARS)], "plain")
